@@ -140,7 +140,7 @@ fn main() {
             }
         }
     }
-    let Some((f, _)) = props::lookup(&id) else {
+    let Some((f, rf)) = props::lookup(&id) else {
         eprintln!("unknown property {id}");
         std::process::exit(2);
     };
@@ -157,5 +157,25 @@ fn main() {
             std::process::exit(2);
         }
     };
+    // Last line of defence against an alarm caused by the environment rather than by the code: every
+    // kept counterexample is re-executed once more from its artefact, in this quiet moment after the
+    // exploration. One that does not fail again is a machinery error, not a verdict.
+    let mut rep = rep;
+    let mut kept = Vec::new();
+    for v in std::mem::take(&mut rep.violations) {
+        let again = std::panic::catch_unwind(std::panic::AssertUnwindSafe(|| rf(&v.replay)));
+        match again {
+            Ok(Ok(())) => {
+                rep.violation_counts.remove(&v.key);
+                rep.machinery_errors.push(format!("a counterexample for [{}] did not fail again when re-executed from its artefact: {}", v.key, v.message.chars().take(300).collect::<String>()));
+            }
+            Ok(Err(m)) if m.starts_with("MACHINERY") || m.starts_with("unknown exploration") => {
+                // no replay support for this artefact shape: keep the verdict of the exploration (which confirmed it itself)
+                kept.push(v);
+            }
+            _ => kept.push(v),
+        }
+    }
+    rep.violations = kept;
     std::process::exit(finish(&id, tier, t0, rep));
 }
